@@ -150,3 +150,21 @@ Definition dist_le_g {A B} (g : lgraph A B) (seeds : list N) (k : nat) (n : N) :
   exists s m, In s seeds /\ (m <= k)%nat /\ walk_g g s n m.
 (** find_nearest_neighbors followed by extract_subgraph, for ANY list of start atoms *)
 Definition ball_sub {A B} (g : lgraph A B) (seeds : list N) (k : nat) : lgraph A B := induced_sub g (knn_g g seeds k).
+
+(** ** n_knn = -1 on graphs of any label shape: longest_radius_extension reads only the bonds (standard_order == 0) and the
+    adjacency order, so it is [lre] of model/C02_Model.v on the SKELETON of the graph (same atom ids, a placeholder label,
+    bonds without the is_mtg flag) *)
+Definition skel_node : inode := IN EL_STAR 0 0 None (NA EL_STAR false 0 0 []) (NA EL_STAR false 0 0 []).
+Definition skel {A} (g : lgraph A xedge) : its := gmap (fun _ : A => skel_node) (@fst iedge (option bool)) g.
+
+(** extract_k(its, n_knn) for every integer option value, on such graphs *)
+Definition extract_k_S_z (g : sits) (k : Z) : sits :=
+  if k =? 0 then get_rc_S K_default false false g
+  else let rcn := node_ids (get_rc_S K_default false false g) in
+       let k' := if k =? -1 then length (lre (skel g) rcn) else Z.to_nat k in
+       ball_sub g rcn k'.
+
+(** longest_radius_extension(I, list(get_rc(I).nodes())) and extract_k(I, -1), then two more option values *)
+Definition run_S_lre (g : sits) : tok :=
+  let rcn := node_ids (get_rc_S K_default false false g) in
+  L [tlist tN rcn; tlist tN (lre (skel g) rcn); tsits (extract_k_S_z g (-1)); tsits (extract_k_S_z g (-2)); tsits (extract_k_S_z g 2)].
